@@ -114,6 +114,11 @@ func (e *Engine) deLoc(st *State, v Value, t types.Type) Value {
 
 // eval evaluates x in st; may add obligations and update st (calls, allocations).
 func (e *Engine) eval(st *State, x ast.Expr) Value {
+	if e.hoisted != nil {
+		if v, ok := e.hoisted[x]; ok {
+			return v
+		}
+	}
 	if cv := e.constOf(x); cv != nil {
 		return e.constValue(st, cv, e.typeOf(x))
 	}
@@ -624,7 +629,7 @@ func (e *Engine) valuesEqual(st *State, a, b Value, t types.Type, n ast.Node) T 
 
 // arrayEq: a[ao+i] == b[bo+i] for all 0 <= i < n.
 func (e *Engine) arrayEq(st *State, a, ao, b, bo, n T) T {
-	if nv, ok := constInt(n); ok && nv <= 64 {
+	if nv, ok := constInt(n); ok && nv <= 128 {
 		var cs []T
 		for i := int64(0); i < nv; i++ {
 			cs = append(cs, Eq(Sel(a, Add(ao, I(i))), Sel(b, Add(bo, I(i)))))
